@@ -139,10 +139,34 @@ def run(ctx):
                     order("rcos>=0", 1.0, float(r0.min()) + 1.0)
                     order("rcos<=1", float(r0.max()) + 1.0, 2.0)
             mu, sd = rnd.uniform(-3, 3), 10 ** rnd.uniform(-2, 2)
+            if i % 3 == 1:
+                mu, sd = 0.0, 10 ** rnd.uniform(-13, -3)          # picosecond pulses, nanovolt spreads
             grid = np.linspace(mu - 10 * sd, mu + 10 * sd, 20001)
             ident("gaus-integrates-to-1", float(np.sum(ut.gaus(grid, mu, sd)) * (grid[1] - grid[0])), 1.0, tol=100)
         ctx.case(("identities", int(np.log10(x)) // 5, int(dB) // 100))
     ident("Q(0)=1/2", ut.Q(0), 0.5)
+    # dec2bin returns a fresh expansion every time (a caller may edit the word it got)
+    for v_, d_ in ((5, 4), (0, 3), (255, 8), (1, 1), (300, 12)):
+        w1 = ut.dec2bin(v_, d_)
+        want_ = [int(c_) for c_ in format(v_, "b").zfill(d_)]
+        w1[...] = 1 - np.asarray(w1)
+        w2 = ut.dec2bin(v_, d_)
+        if [int(b_) for b_ in np.asarray(w2).ravel()] != want_ or np.shares_memory(np.asarray(w1), np.asarray(w2)):
+            ctx.violation("dec2bin:depends-on-earlier-calls", f"dec2bin({v_},{d_}) after the caller edited an earlier result: {np.asarray(w2).tolist()} instead of {want_}", {"v": v_, "d": d_})
+        ctx.case(("dec2bin-twice", d_), None)
+    # integers beyond 2^53 (and beyond TLC's integers: compared here with Python's exact integers): the text form is inverted exactly
+    for vals_ in ([9007199254740993, -9007199254740995, 7], [2 ** 62 + 1, 2 ** 53 + 1], [[2 ** 60 + 3, 1], [5, -(2 ** 61) - 7]], [123456789012345678]):
+        arr_ = np.array(vals_, dtype=np.int64)
+        txt_ = ";".join(",".join(str(int(x_)) for x_ in row_) for row_ in np.atleast_2d(arr_)) if arr_.ndim == 2 else " ".join(str(int(x_)) for x_ in arr_)
+        for dt_ in (None, int, np.int64):
+            try:
+                back_ = ut.str2array(txt_) if dt_ is None else ut.str2array(txt_, dt_)
+                ok_ = np.asarray(back_).shape == arr_.shape and [int(x_) for x_ in np.asarray(back_).ravel()] == [int(x_) for x_ in arr_.ravel()]
+            except Exception as e_:
+                ok_, back_ = False, repr(e_)
+            if not ok_:
+                ctx.violation("str2array:large-integers", f"str2array({txt_!r}, {dt_}) = {back_!r}: not the integers written", {"text": txt_})
+        ctx.case(("str2array-large-int", arr_.ndim), None)
     # array arguments are write-protected: a utility that works in place on its argument raises inside the library
     for fn_name in ("db", "dbm", "idb", "idbm", "Q", "gaus"):
         arr = np.array([0.5, 1.0, 20.0, 33.0])
